@@ -36,7 +36,8 @@ def gen_cases(ctx):
             for numrec in range(0, rmax + 1):
                 out.append({"k": "out", "N": N, "p": p, "numrec": numrec, "layout": rng.choice(["sparse", "sparse", "dense"]),
                             "pvars": rng.random() < 0.6, "rev": rng.random() < 0.35,
-                            "proto": rng.choice(["out.nc", "out.nc", "run_04.nc", "a_b_007.nc", "x_99.nc", "ladim_2020_000.nc", "run10_010.nc", "r__1.nc", "t_0_00.nc"]),
+                            "proto": rng.choice(["out.nc", "out.nc", "run_04.nc", "a_b_007.nc", "x_99.nc", "ladim_2020_000.nc", "run10_010.nc", "r__1.nc", "t_0_00.nc",
+                                                 "out.v2.nc", "run.2000-01_07.nc", "a.b.c_1.nc"]),
                             "rem": rng.choice([0, 0, 0, 250])})
     for N, p, numrec in ([(5, 2, 0), (5, 2, 2), (7, 3, 2), (6, 2, 3), (4, 1, 4), (1, 3, 1)] if ctx.quick else
                          [(rng.randint(1, 20), rng.randint(1, 6), rng.randint(0, 4)) for _ in range(40)]):
